@@ -57,6 +57,7 @@ import PyhamModel.Lemmas.FilterAbsent
 import PyhamModel.Lemmas.Interleave
 import PyhamModel.Lemmas.LeafProfile
 import PyhamModel.Lemmas.SaxSim
+import PyhamModel.Lemmas.LateSpecies
 namespace Pyham.Props
 open Pyham
 
@@ -1019,6 +1020,31 @@ theorem C11_first_pass_document (f : Filter) (inp : Input) (h : Sax.noTopRefL in
     Sax.fdrun f (Sax.spEvents inp.species ++ (Sax.eventsL inp.groups).map .grp) { gids := [] } =
       (filterTops f inp.groups (filterGenes f inp.species, [])).map fun r => { gids := r.1, hids := r.2 } :=
   Sax.f_document f inp h
+
+/-- **species sections after the groups section** (legal orthoXML; pyham reads the file once, front to back): the document
+    `early species … groups … late species` ends in the analysis the recursive load of (all species, groups) returns, provided
+    every species section is valid and no gene declared in a late section is referenced by a group -/
+theorem C01_species_after_groups (T : STree) (nm : Naming) (keep : String → Bool) (flt : HogFilter)
+    (early late : List Species) (groups : List Elem) (all : List GeneRec)
+    (hall : declareSpecies T nm keep (early ++ late) [] = .ok all)
+    (hlate : ∀ id ∈ refsOfL groups, ∀ s ∈ late, ∀ g ∈ s.genes, g.id ≠ id) :
+    (Sax.drun T nm keep flt (Sax.spEvents early ++ ((Sax.eventsL groups).map .grp ++ Sax.spEvents late)) {}).map (Sax.DS.ham T nm) =
+      buildHam T nm { species := early ++ late, groups := groups } keep flt :=
+  Sax.late_species_load T nm keep flt early late groups all hall hlate
+
+/-- ... and the hypothesis is needed (kernel-evaluated): a member declared only AFTER the groups section is a KeyError for
+    the streaming loader, while the recursive model, which reads the species sections first, loads the file.  This is where
+    the recursive model is NOT the code; the harness writes late species sections with unreferenced genes only. -/
+theorem C01_species_after_groups_needs_unreferenced :
+    let T : STree := .node "R" [.node "A" [], .node "B" []]
+    let early : List Species := [{ name := "A", genes := [{ id := "a1", xrefs := [] }] }]
+    let late : List Species := [{ name := "B", genes := [{ id := "b1", xrefs := [] }] }]
+    let groups : List Elem := [.og (some "1") none [.ref "a1" none, .ref "b1" none]]
+    (match Sax.drun T .own (fun _ => true) none (Sax.spEvents early ++ ((Sax.eventsL groups).map .grp ++ Sax.spEvents late)) {} with
+      | .error .key => true | _ => false) = true ∧
+    (match buildHam T .own { species := early ++ late, groups := groups } (fun _ => true) none with
+      | .ok _ => true | .error _ => false) = true := by
+  decide
 
 /-- wherever in the stream the fault occurs: once a call raises, the run has failed with that exception, whatever follows
     (nothing after the faulty call is read, no state is returned) -/
